@@ -7,8 +7,12 @@ package main
 import (
 	"bytes"
 	"encoding/hex"
+	"encoding/json"
 	"fmt"
+	"io/ioutil"
 	"math/big"
+	"os"
+	"path/filepath"
 	"sort"
 	"strconv"
 	"strings"
@@ -66,11 +70,11 @@ type World struct {
 }
 
 type Exec struct {
-	w       *World
-	scratch string
-	out     *xvlib.Out
-	caseOps []string
-	caseOut []string
+	w          *World
+	scratch    string
+	out        *xvlib.Out
+	caseOps    []string
+	caseOut    []string
 	blockEvery int // block path for every n-th mutant (1 = all)
 	mutCount   int
 }
@@ -82,6 +86,30 @@ func (e *Exec) violate(key, what string) {
 		impl = impl[len(impl)-12:]
 	}
 	e.out.Violate(xvlib.Violation{Key: key, What: what, Ops: ops, Impl: impl})
+	e.checkpoint()
+}
+
+// checkpoint writes the statistics gathered so far (see supervise in main.go).
+func (e *Exec) checkpoint() {
+	st := e.out.Stats
+	if st.Samples == nil {
+		st.Samples = []interface{}{}
+	}
+	if b, err := json.MarshalIndent(st, "", " "); err == nil {
+		ioutil.WriteFile(filepath.Join(e.out.Dir, "stats.json"), b, 0644)
+	}
+}
+
+// noteOp appends the op line about to be executed to the checkpoint of the current case.
+func (e *Exec) noteOp(line string, first bool) {
+	flag := os.O_CREATE | os.O_WRONLY | os.O_APPEND
+	if first {
+		flag = os.O_CREATE | os.O_WRONLY | os.O_TRUNC
+	}
+	if f, err := os.OpenFile(filepath.Join(e.out.Dir, "case.ops"), flag, 0644); err == nil {
+		f.WriteString(line + "\n")
+		f.Close()
+	}
 }
 
 func (w *World) addrOf(u string) string {
@@ -760,6 +788,7 @@ func (e *Exec) exec(line string) (ans string) {
 	if f[0] == "reset" {
 		e.caseOps, e.caseOut = nil, nil
 	}
+	e.noteOp(line, f[0] == "reset")
 	e.caseOps = append(e.caseOps, line)
 	ans = e.exec1(f, line)
 	e.caseOut = append(e.caseOut, ans)
@@ -1001,7 +1030,16 @@ func (e *Exec) mut(p *Pending, class string, args []string) string {
 			blockRun, blockOK = true, b
 		}
 	}
-	e.out.Count("mut:" + class + ":" + verdict)
+	stage := ""
+	if verdict == "reject" {
+		stage = "-d" // refused by DoTx only
+		if !(ok && verr == nil) {
+			stage = "-v" // refused by VerifyTx
+		} else if e.isStaleTx(tx) {
+			e.violate("verifytx-accepts-stale-read", fmt.Sprintf("VerifyTx accepted the %s mutant %v of %q although a declared read is not the current version (only DoTx refused it)", class, args, p.Prog))
+		}
+	}
+	e.out.Count("mut:" + class + ":" + verdict + stage)
 	if blockRun && blockOK != (verdict == "accept") {
 		e.violate("block-path-differs:"+class, fmt.Sprintf("mutant %s %v of %q: submission says %s, a replica playing a block with it says accept=%v", class, args, p.Prog, verdict, blockOK))
 	}
@@ -1016,7 +1054,7 @@ func (e *Exec) mut(p *Pending, class string, args []string) string {
 			e.violate("valid-rejected:"+class, fmt.Sprintf("variant %s %v of the transaction of %q was refused", class, args, p.Prog))
 		}
 	}
-	return verdict
+	return verdict + stage
 }
 
 // replica: a fresh node that receives the blocks of the main node must play them and reach the same state.
